@@ -228,10 +228,16 @@ class Ctx:
             return os.path.join(BUILD, name)
 
     # ---------------------------------------------------------------- ocaml
-    def ocaml_model(self, area):
+    def ocaml_model(self, area, deps=None):
         """coq/<Area>/Extract.v must be built already (part of make). It writes model.ml into ocaml/<area>/
         when compiled from that directory, so compile it there, then build driver.ml -> modelrun."""
         d = os.path.join(VERIF, "ocaml", area)
+        if deps:
+            with Lock("coq"):
+                coq_prepare()
+                rc, out, _ = sh(["make", "-j16"] + deps, cwd=COQ, timeout=1500)
+                if rc != 0:
+                    raise BuildError("coq build of %s failed:\n%s" % (deps, out[-3000:]))
         with Lock("ocaml-" + area):
             rc, out, _ = sh(["coqc", "-Q", COQ, "Slock", "Extract.v"], cwd=d, timeout=600)
             if rc != 0:
